@@ -27,7 +27,7 @@ EXTENDS Integers, Sequences, FiniteSets, TLC, Json
 CONSTANTS DBs, Colls,       \* database / collection parts of specifications, "*" = wildcard
           UDBs, UColls,     \* the concrete universe (contains names no specification mentions)
           Targets,          \* downstream addresses
-          Vias,             \* how db "default" is expressed: "ci" = collection_infos, "dbc" = db_collections
+          Vias,             \* how db "default" may be expressed (other databases always "dbc"): "ci" = collection_infos, "dbc" = db_collections
           MapKinds,         \* subset of {"none", "own", "owndb", "foreign"}
           URs,              \* subset of BOOLEAN: user-role flag of a create request
           Faults,           \* create: 0 = none, k = the k-th store call fails, 99 = the entity factory fails
@@ -35,6 +35,7 @@ CONSTANTS DBs, Colls,       \* database / collection parts of specifications, "*
           MaxOps,           \* history bound
           MaxLive,          \* CDCServerConfig.MaxTaskNum
           WithRestart,
+          SimPrint,         \* TRUE: print the plan from a final action (TLC -simulate evaluates invariants on ALL successors)
           DelW, RestartW,   \* multiplicity of the delete / restart successors (only to balance TLC -simulate, 1 otherwise)
           PartialOverlapChecked, ExcludeKept, UserRoleReverted, ReloadOrsUserRole
 
@@ -132,11 +133,10 @@ Restart ==
                                   ELSE IF Live(t) = {} THEN FALSE ELSE task[MaxOf(Live(t))].ur]
     /\ res' = "ok" /\ pbook' = Book /\ UNCHANGED task
 
-Next ==
+Step ==
     /\ Len(hist) < MaxOps
-    /\ \/ \E t \in Targets, n \in Names, v \in Vias, mk \in MapKinds, ur \in URs, f \in Faults :
-            /\ (v = "ci" => n.db = "default")
-            /\ (n.db # "default" => v = "dbc")
+    /\ \/ \E t \in Targets, n \in Names, mk \in MapKinds, ur \in URs, f \in Faults :
+         \E v \in (IF n.db = "default" THEN Vias ELSE {"dbc"}) :
             /\ Create(t, n, mk, ur, f)
             /\ hist' = Append(hist, [op |-> "create", db |-> n.db, coll |-> n.coll, via |-> v, map |-> mk,
                                      ur |-> ur, fault |-> f, tgt |-> t])
@@ -146,6 +146,13 @@ Next ==
        \/ \E w \in 1..RestartW :
             /\ WithRestart /\ Restart
             /\ hist' = Append(hist, [op |-> "restart", w |-> w])
+
+\* simulation only: one successor of a complete history, generated (and printed) only when the walk is there
+Finish == /\ SimPrint /\ Len(hist) = MaxOps /\ res # "done"
+          /\ PrintT("PLAN " \o ToJson(hist))
+          /\ res' = "done" /\ UNCHANGED <<task, data, excl, urf, pbook, hist>>
+
+Next == Step \/ Finish
 
 Spec == Init /\ [][Next]_vars
 
